@@ -65,7 +65,7 @@ DONE = {
   note="Trusts redb's commit atomicity (torn pages are out of scope); a crash is modelled as a copy of the file between two store calls of the single-threaded store.",
   technique="fault enumeration (crash point x commit placement, exhaustive per generated history) with a metamorphic witness-run oracle"),
  "C11": dict(level="exploration",
-  text="Two real live actors are driven through generated schedules of dial decisions, request/reply delivery and loss, and independent success/failure of both ends of each session; the harness owns the network and feeds synthetic results to the real completion handlers. Invariants over the history: one session at a time per pair, exactly one of two back-to-back simultaneous requests allowed, resync dials only after a refused report and every refused report followed up, Idle and probe-able at quiescence, NotFound for a non-syncing document. 3 % of the schedules run in lifecycle mode: the documents really exist in both stores and are started / left through the real start_sync / leave, and the schedule also leaves and re-joins the document (at quiescence) and queues / completes content downloads; a left document must stay un-synced (requests NotFound, no dials) whatever completes later.",
+  text="Two real live actors are driven through generated schedules of dial decisions, request/reply delivery and loss, and independent success/failure of both ends of each session; the harness owns the network and feeds synthetic results to the real completion handlers. Invariants over the history: one session at a time per pair, exactly one of two back-to-back simultaneous requests allowed, resync dials only after a refused report and every refused report followed up, Idle and probe-able at quiescence, NotFound for a non-syncing document. 5 % of the schedules run in lifecycle mode: the documents really exist in both stores and are started / left through the real start_sync / leave, and the schedule also leaves and re-joins the document (at quiescence) and queues / completes content downloads; a left document must stay un-synced (requests NotFound, no dials) whatever completes later.",
   note="connect_and_sync / handle_connection themselves are replaced by synthetic results (their QUIC behaviour is not explored); handlers are atomic as in the actor loop.",
   technique=PBT + ": schedule exploration of the two-node coordination state machine with history invariants"),
  "C04": dict(level="exploration",
